@@ -72,7 +72,7 @@ def run(rep, tier):
                     owners.check_move_assign(rep, "C15", db, f, inst, release_pred, "idx"); cnt("assign")
                 elif nm in (AP + "::~app_pointer", AP + "::unregister"):
                     rec = owners.record_of(db, f)
-                    owners.check_release(rep, "C15", db, f, inst, release_pred_strict, "idx", owners.field_names(rec)); cnt("release")
+                    owners.check_release(rep, "C15", db, f, inst, release_pred_strict, "idx", owners.field_names(rec, db)); cnt("release")
             except Inconclusive as ex:
                 rep.inconclusive("R-C15", site(f), str(ex), inst)
     floors = {"reserve": 1, "fresh": 1, "table": 3, "sandbox": 2, "move": 1, "assign": 1, "release": 2, "unique": 1}
